@@ -179,6 +179,29 @@ func c02Strings(tier string) []string {
 		}
 	}
 	out = append(out, yamlWords...)
+	if tier == "thorough" {
+		// every BMP rune next to a letter (both sides), every special symbol next to every
+		// printable ASCII character, and all three-symbol strings over twelve special symbols
+		for r := rune(0); r <= 0xFFFF; r++ {
+			if r >= 0xD800 && r <= 0xDFFF {
+				continue
+			}
+			out = append(out, "a"+string(r), string(r)+"a")
+		}
+		for _, x := range c02Special {
+			for c := rune(0x20); c < 0x7f; c++ {
+				out = append(out, x+string(c), string(c)+x)
+			}
+		}
+		sp := c02Special[:12]
+		for _, x := range sp {
+			for _, y := range sp {
+				for _, z := range sp {
+					out = append(out, x+y+z)
+				}
+			}
+		}
+	}
 	return out
 }
 
